@@ -137,7 +137,7 @@ def run_harness(exe, args, cwd, env, timeout):
     import subprocess, json
     last = None
     for attempt in (1, 2):
-        p = subprocess.run([exe] + args, cwd=cwd, env=env, stdout=subprocess.PIPE, stderr=subprocess.PIPE, timeout=timeout,
+        p = subprocess.run([exe] + args, cwd=cwd, env=env, stdout=subprocess.PIPE, stderr=subprocess.PIPE, timeout=timeout * vcheck.TSCALE,
                            text=True, errors="replace")
         if p.returncode == 0:
             return [json.loads(l) for l in p.stdout.splitlines() if l.startswith("{")]
